@@ -161,6 +161,8 @@ func formatAddrAs(role string, a netip.Addr, port uint16) string {
 	})
 }
 
+var keptTexts, keptCopies []string
+
 func streamAddr(c *ctx) {
 	r := c.r
 	w := c.w
@@ -227,6 +229,25 @@ func streamAddr(c *ctx) {
 			txt := formatAddrAs(role, a, uint16(p))
 			w.Emit(fmt.Sprintf("addr-format %s %d %d %d %d %d", role, b[0], b[1], b[2], b[3], p), "text "+cases.Hex([]byte(txt)), "format", "addr/"+role)
 			emitParse(role, txt, "parse/of-formatted")
+			if len(keptTexts) < 64 {
+				keptTexts, keptCopies = append(keptTexts, txt), append(keptCopies, cases.Hex([]byte(txt)))
+			}
+		}
+		// the texts handed out earlier are still what they were (a text is a value: formatting another address later
+		// cannot change it)
+		{
+			changed := 0
+			for i := range keptTexts {
+				if cases.Hex([]byte(keptTexts[i])) != keptCopies[i] {
+					changed++
+				}
+			}
+			out := "same"
+			if changed > 0 {
+				out = fmt.Sprintf("changed-%d-of-%d", changed, len(keptTexts))
+			}
+			w.Emit("addr-kept "+role, out, "format/kept-texts")
+			keptTexts, keptCopies = nil, nil
 		}
 	}
 	// exhaustive short strings over a small alphabet
